@@ -664,7 +664,7 @@ class dictable(Dict):
             check = lambda value: value in as_list(none)
         else:
             check = none
-        res = self
+        res = self.copy() ## a new table, like Dict.if_none: the columns assigned below must not land on self
         for key, value in kwargs.items():
             if key not in res.keys(): ## revert back to simple calc
                 res = res(**{key: value})
